@@ -257,6 +257,31 @@ class Module:
                 self.funcs[fname] = f
             i += 1
 
+    def return_provs(self, fname):
+        """Provenances (callee-relative) of the pointers a defined function may return; None if unknown."""
+        if not hasattr(self, "_retp"):
+            self._retp = {}
+        if fname in self._retp:
+            return self._retp[fname]
+        self._retp[fname] = None   # recursion guard
+        f = self.funcs[fname]
+        ff = FuncFacts(self, f)
+        out = []
+        ok = True
+        for lab in f.order:
+            for ins in f.blocks[lab]:
+                if ins.op == "ret":
+                    m = re.match(r"^ret ptr (\S+)$", ins.text.strip())
+                    if not m:
+                        continue
+                    p = ff.prov(m.group(1))
+                    for r in flat_roots(p.root):
+                        if root_kind(r) in ("unknown", "callret", "alloca"):
+                            ok = False
+                        out.append(Prov(r, p.off if p.root == r else None))
+        self._retp[fname] = out if (ok and out) else None
+        return self._retp[fname]
+
     def _parse_instr(self, s, block, idx):
         # strip metadata and comments
         s = re.sub(r",\s*!\w+(\.\w+)*\s+!\d+", "", s)
@@ -293,7 +318,7 @@ class Module:
 # analysis of one function
 # ------------------------------------------------------------------------------------------
 
-ALLOC_FUNCS = {"@malloc", "@_Znwm", "@_Znam", "@aligned_alloc", "@calloc", "@_ZnwmSt11align_val_t", "@realloc",
+ALLOC_FUNCS = {"@__cxa_allocate_exception", "@malloc", "@_Znwm", "@_Znam", "@aligned_alloc", "@calloc", "@_ZnwmSt11align_val_t", "@realloc",
                "@_ZnwmRKSt9nothrow_t", "@posix_memalign"}
 FREE_FUNCS = {"@free", "@_ZdlPv", "@_ZdaPv", "@_ZdlPvm", "@_ZdlPvSt11align_val_t", "@_ZdaPvm"}
 PURE_FUNCS = {"@sin", "@cos", "@tan", "@sqrt", "@atan2", "@atan", "@asin", "@acos", "@exp", "@log", "@pow", "@fabs",
@@ -307,7 +332,11 @@ NORETURN_FUNCS = {"@_ZSt17__throw_bad_allocv", "@_ZSt20__throw_length_errorPKc",
                   "@_ZSt21__throw_bad_variant_accessPKc", "@_ZSt21__throw_bad_variant_accessb", "@__clang_call_terminate",
                   "@_ZSt25__throw_bad_function_callv", "@_ZSt19__throw_logic_errorPKc", "@_ZSt20__throw_out_of_rangePKc",
                   "@_ZSt27__throw_bad_optional_accessv", "@__cxa_call_unexpected", "@__cxa_rethrow", "@_Unwind_Resume"}
-BENIGN_FUNCS = {"@__cxa_allocate_exception", "@__cxa_free_exception", "@__cxa_begin_catch", "@__cxa_end_catch",
+IO_PREFIXES = ("@_ZNSo", "@_ZNSi", "@_ZNSt6locale", "@_ZSt16__ostream_insert", "@_ZNKSt5ctype", "@_ZNSt8ios_base",
+               "@_ZNSt9basic_ios", "@_ZSt4endl", "@_ZNKSt9basic_ios", "@_ZStlsI", "@_ZNSolsE", "@_ZNSt7__cxx1118basic_stringstream",
+               "@_ZNSt7__cxx1119basic_ostringstream", "@_ZNSt6chrono", "@_ZSt9use_facet", "@_ZNKSt6locale", "@puts", "@printf",
+               "@putchar", "@fflush", "@fwrite")
+BENIGN_FUNCS = {"@__cxa_free_exception", "@_ZNSt6chrono3_V212system_clock3nowEv", "@_ZNSt6chrono3_V212steady_clock3nowEv", "@__cxa_begin_catch", "@__cxa_end_catch",
                 "@__gxx_personality_v0", "@__cxa_atexit", "@__cxa_guard_acquire", "@__cxa_guard_release",
                 "@__cxa_guard_abort", "@rand", "@srand", "@__errno_location"}
 
@@ -324,6 +353,18 @@ class Prov:
 
     def key(self):
         return (self.root, self.off)
+
+
+def flat_roots(root):
+    """Constituent roots of a provenance root (phi/select of several bases gives ('multi', (...)))."""
+    if root and root[0] == "multi":
+        out = []
+        for r in root[1]:
+            out.extend(flat_roots(r))
+        return out
+    if root and root[0] == "loaded" and root[1] and root[1][0] == "multi":
+        return [("loaded", r, root[2]) for r in flat_roots(root[1])]
+    return [root]
 
 
 def root_param(root):
@@ -426,12 +467,57 @@ class FuncFacts:
                 a = re.search(r"\(ptr[^%@]*(" + NAME + "|" + GNAME + ")", t)
                 if a:
                     return self.prov(a.group(1), depth + 1)
+            if m and m.group(1) in self.mod.funcs and depth < 50:
+                # defined callee returning a pointer: substitute its return provenance (in terms of its parameters)
+                rp = self.mod.return_provs(m.group(1))
+                if rp is not None:
+                    args = [self._arg_value(a) for a in split_top(self._call_args(t))]
+                    outs = []
+                    for r in rp:
+                        sub = self._subst_root(r.root, r.off, args, depth)
+                        if sub is None:
+                            outs = None
+                            break
+                        outs.append(sub)
+                    if outs:
+                        roots = {o.root for o in outs}
+                        if len(roots) == 1:
+                            offs = {o.off for o in outs}
+                            return Prov(outs[0].root, outs[0].off if len(offs) == 1 else None)
+                        return Prov(("multi", tuple(sorted(roots, key=str))), None)
             return Prov(("callret", v), None)
         if op == "inttoptr":
             return Prov(("unknown", v), None)
         if op == "extractvalue":
             return Prov(("unknown", v), None)
         return Prov(("unknown", v), None)
+
+    def _subst_root(self, root, off, args, depth):
+        """Callee-relative provenance -> caller-relative."""
+        k = root[0]
+        if k == "param":
+            if root[1] >= len(args):
+                return None
+            a = args[root[1]]
+            if not (a.startswith("%") or a.startswith("@")):
+                return Prov(("null",), 0)
+            p = self.prov(a, depth + 1)
+            return Prov(p.root, None if (p.off is None or off is None) else p.off + off)
+        if k == "loaded":
+            inner = self._subst_root(root[1], root[2], args, depth)
+            if inner is None:
+                return None
+            return Prov(("loaded", inner.root, inner.off), off)
+        if k in ("global", "null"):
+            return Prov(root, off)
+        if k == "heap":
+            return Prov(("heap", "callee:" + str(root[1])), off)
+        if k == "multi":
+            subs = [self._subst_root(r, None, args, depth) for r in root[1]]
+            if any(x is None for x in subs):
+                return None
+            return Prov(("multi", tuple(sorted({x.root for x in subs}, key=str))), None)
+        return None
 
     def _gep(self, body, depth):
         parts = split_top(body)
@@ -531,6 +617,8 @@ class FuncFacts:
         for lab in self.f.order:
             for ins in self.f.blocks[lab]:
                 if ins.op in ("call", "invoke"):
+                    if re.search(r"\basm\b", ins.text.split("(")[0]):
+                        continue   # inline asm (Eigen optimisation barriers): no memory effects modelled
                     m = re.search(r"(" + GNAME + r")\s*\(", ins.text)
                     if m:
                         cal = m.group(1)
